@@ -59,6 +59,8 @@ def fmt_case(c):
         lines.append("elem %s" % c["elem"])
     if c.get("chunkstyle"):
         lines.append("chunkstyle %s" % c["chunkstyle"])
+    if c.get("ctor"):
+        lines.append("ctor %s" % c["ctor"])
     if c.get("c0") is not None:
         lines.append("c0 %d" % c["c0"])
     if c.get("multi"):
@@ -180,8 +182,17 @@ def gen_conc(r, cid, allow, kinds=KINDS_ALL, mode="wrapping", adaptors=False, fi
         fin = r.weighted([("drop", 2), ("seq:%d" % r.weighted([(0, 1), (1, 1), (100, 3)]), 3)])
     else:
         fin = final
-    return dict(id=cid, env=env, progs=progs, final=fin, seed=r.below(1 << 30),
-                gen=r.weighted([("random", 5), ("pct", 3), ("rr", 1), ("solo", 2)]), sched=None)
+    c = dict(id=cid, env=env, progs=progs, final=fin, seed=r.below(1 << 30),
+             gen=r.weighted([("random", 5), ("pct", 3), ("rr", 1), ("solo", 2)]), sched=None)
+    # the other public constructors of the same iterators
+    if env["adaptor"] == "none" and r.chance(1, 3):
+        if env["kind"] == "slice":
+            c["ctor"] = r.choice(["con_iter_vec", "con_iter_array", "con_iter_slice", "from"])
+        elif env["kind"] == "range":
+            c["ctor"] = r.choice(["con_iter_range", "from"])
+        elif env["kind"] == "vec":
+            c["ctor"] = "from"
+    return c
 
 
 def gen_tiny(r, cid, allow, kinds=KINDS_ALL, mode="wrapping", final="drop"):
